@@ -152,6 +152,9 @@ pub const SOUP_TOKENS: &[&str] = &[
     "---", "--- ", "---\n", "...", "...\n", ".", "~", "null", "true", "0x1F", "1.5", "é", "中", "😀", "\u{feff}", "\u{85}", "\u{2028}", "\r", "\r\n",
     "''", "\"\"", "[]", "{}", "a: b", "- a\n", "k:\n", "abcdefghijklmnopqrst", "                 ", "\n                  ", "# a comment longer than sixteen\n",
     "plain words here", "k: |\n  x\n  y\n", "- >\n a\n\n b\n",
+    // directive and tag material (added after seeded changes C01-m3 / C01-m4 / C10-m3 were missed)
+    "%YAML ", "%YAML 1.", "4294967296", "9999999999", "%TAG ", "!a-b!x ", "%TAG !a-b! tag:e:\n", "%C3", "%C3%A9", "%E4%B8", "%F0", "%zz", "%C3%",
+    "!e%C3%A9 ", "%YAML 1.2\r\n", "%FOO x\n", "!<", "tag:e:", "!e! ",
 ];
 
 pub fn soup_strategy() -> impl Strategy<Value = Vec<&'static str>> {
